@@ -120,6 +120,19 @@ type World struct {
 	closeFns  []func()
 	lateAddrs map[oid.Address]bool
 	repl      *replCfg // C31: container membership override, nil = {node, peer} in both epochs
+	hist      *histCfg // C31 histories: per-epoch membership, takes precedence over repl
+	epoch     atomic.Uint64
+	mkSrv     func() *objectsvc.Server // a fresh objectsvc.Server over the same dependencies
+}
+
+// histCfg is the FS chain's view of the container(s) during one replayed history: who is a container node in which epoch.
+type histCfg struct {
+	keys [][]byte // sender keys, index = sender number - 1
+	mem  map[uint64]histMem
+}
+type histMem struct {
+	c []bool // per sender
+	s bool   // local node
 }
 
 // replCfg describes who belongs to every container for a Replicate call: "cur" | "prev" | "none".
@@ -141,8 +154,8 @@ func (c chain) Get(id cid.ID) (container.Container, error) {
 	}
 	return d.cnr, nil
 }
-func (c chain) CurrentEpoch() uint64         { return curEpoch }
-func (c chain) CurrentBlock() uint32         { return curEpoch * epochDuration }
+func (c chain) CurrentEpoch() uint64         { return c.w.epoch.Load() }
+func (c chain) CurrentBlock() uint32         { return uint32(c.w.epoch.Load() * epochDuration) }
 func (c chain) CurrentEpochDuration() uint64 { return epochDuration }
 func (c chain) InvokeContainedScript(*transaction.Transaction, *block.Header, *trigger.Type, *bool) (*result.Invoke, error) {
 	return nil, errors.New("N3 witnesses are not modelled")
@@ -155,7 +168,39 @@ func (c chain) nodes() []netmap.NodeInfo {
 	b.SetNetworkEndpoints("/ip4/127.0.0.1/tcp/2")
 	return []netmap.NodeInfo{a, b}
 }
+func (c chain) histMembers(id cid.ID, f func([]byte) bool, prevToo bool) error {
+	h := c.w.hist
+	if _, ok := c.w.byID[id]; !ok {
+		return apistatus.ErrContainerNotFound
+	}
+	if !f(pubBytes(c.w.peerKey)) { // some third node is always there
+		return nil
+	}
+	e := c.w.epoch.Load()
+	eps := []uint64{e}
+	if prevToo {
+		eps = append(eps, e-1)
+	}
+	for _, ep := range eps {
+		m, ok := h.mem[ep]
+		if !ok {
+			continue
+		}
+		for i, in := range m.c {
+			if in && !f(h.keys[i]) {
+				return nil
+			}
+		}
+		if m.s && !f(pubBytes(c.w.nodeKey)) {
+			return nil
+		}
+	}
+	return nil
+}
 func (c chain) replMembers(id cid.ID, f func([]byte) bool, prevToo bool) error {
+	if c.w.hist != nil {
+		return c.histMembers(id, f, prevToo)
+	}
 	r := c.w.repl
 	if _, ok := c.w.byID[id]; !ok || r.unknownContainer {
 		return apistatus.ErrContainerNotFound
@@ -173,7 +218,7 @@ func (c chain) replMembers(id cid.ID, f func([]byte) bool, prevToo bool) error {
 	return nil
 }
 func (c chain) ForEachContainerNodePublicKey(id cid.ID, f func([]byte) bool) error {
-	if c.w.repl != nil {
+	if c.w.repl != nil || c.w.hist != nil {
 		return c.replMembers(id, f, false)
 	}
 	if _, ok := c.w.byID[id]; !ok {
@@ -187,7 +232,7 @@ func (c chain) ForEachContainerNodePublicKey(id cid.ID, f func([]byte) bool) err
 	return nil
 }
 func (c chain) ForEachContainerNodePublicKeyInLastTwoEpochs(id cid.ID, f func([]byte) bool) error {
-	if c.w.repl != nil {
+	if c.w.repl != nil || c.w.hist != nil {
 		return c.replMembers(id, f, true)
 	}
 	return c.ForEachContainerNodePublicKey(id, f)
@@ -817,7 +862,7 @@ func (w *World) newObject(d *cnrDesc, owner user.Signer, payload string, attrs .
 		as = append(as, object.NewAttribute(attrs[i], attrs[i+1]))
 	}
 	o.SetAttributes(as...)
-	o.SetCreationEpoch(curEpoch)
+	o.SetCreationEpoch(w.epoch.Load())
 	o.SetPayload([]byte(payload))
 	o.SetPayloadSize(uint64(len(payload)))
 	kit.Must(o.SetVerificationFields(owner))
@@ -848,6 +893,7 @@ func (w *World) addContainer(name string, basic acl.Basic, table func(cid.ID) *e
 // NewWorldLite creates the keys and containers only (no engine, no servers).
 func NewWorldLite() *World {
 	w := &World{rec: new(Recorder), cnrs: map[string]*cnrDesc{}, byID: map[cid.ID]*cnrDesc{}, lateAddrs: map[oid.Address]bool{}}
+	w.epoch.Store(curEpoch)
 	w.nodeKey, w.ownerKey, w.otherKey, w.peerKey, w.irKey, w.strangerKey = newKey(), newKey(), newKey(), newKey(), newKey(), newKey()
 	w.owner = user.NewAutoIDSigner(*w.ownerKey)
 	w.other = user.NewAutoIDSigner(*w.otherKey)
@@ -965,8 +1011,11 @@ func NewWorld(dir string) *World {
 		SetLocalStorage(w.eng).
 		SetHeaderSource(hdrSource{w}))
 
-	w.srv = objectsvc.New(recHandlers{w: w, get: sGet, put: w.put, del: sDel}, ch, recStorage{w: w, keys: keyStorage}, nil, *w.nodeKey,
-		nopMetrics{}, recACL{w: w, real: checker}, recInfo{w: w, real: aclSvc}, clients, log)
+	w.mkSrv = func() *objectsvc.Server {
+		return objectsvc.New(recHandlers{w: w, get: sGet, put: w.put, del: sDel}, ch, recStorage{w: w, keys: keyStorage}, nil, *w.nodeKey,
+			nopMetrics{}, recACL{w: w, real: checker}, recInfo{w: w, real: aclSvc}, clients, log)
+	}
+	w.srv = w.mkSrv()
 
 	// gRPC front: the same wiring as cmd/neofs-node/object.go (Head / SearchV2 are served by the buffered variants)
 	desc := protoobject.ObjectService_ServiceDesc
